@@ -220,6 +220,17 @@ class _RootNameCollector(cst.CSTVisitor):
             self.names.add(node.value)
         return True
 
+    def visit_Lambda(self, node: cst.Lambda) -> bool:  # noqa: N802
+        # The parameters of a lambda are bound inside it: only the other names its body
+        # reads (and the names read by parameter defaults) are reads of the statement.
+        params = node.params
+        for group in (params.params, params.kwonly_params, getattr(params, "posonly_params", ())):
+            for param in group:
+                if param.default is not None:
+                    param.default.visit(self)
+        self.names.update(_RootNameCollector.collect(node.body) - set(_params_names(params)))
+        return False
+
 
 def _params_names(params: cst.Parameters) -> list[str]:
     """Return the parameter names introduced by a ``Parameters`` node."""
